@@ -49,6 +49,17 @@ def gen_case(rng, fi=None):
     if rng.random() < 0.08:
         k = 0         # an empty target vector ("hold nothing"): everything open is closed, the value stays in cash
     idxs = sorted(rng.sample(range(len(kids)), k))
+    dropped = None
+    withsub = [(p, n) for p, n in strats if any("sec" not in kd for kd in n["kids"]) and len(n["kids"]) >= 2]
+    if withsub and rng.random() < 0.5:
+        # rotating away from a sub-strategy: a parent of sub-strategies whose targets leave one of them out (or give it exactly 0) -
+        # whatever it holds by then is closed and its capital handed back
+        path, node = rng.choice(withsub)
+        kids = node["kids"]
+        dropped = rng.choice([i for i, kd in enumerate(kids) if "sec" not in kd])
+        others = [i for i in range(len(kids)) if i != dropped]
+        idxs = sorted(rng.sample(others, rng.randint(1, len(others))))
+        nops = max(nops, 8)
     ws = []
     tot = 0.0
     for i in idxs:
@@ -57,6 +68,12 @@ def gen_case(rng, fi=None):
             w = 0.0625 if tot + 0.0625 <= 1.0 else 0.0
         tot += abs(w)
         ws.append(w)
+    if dropped is not None and rng.random() < 0.4:
+        idxs.append(dropped)
+        ws.append(0.0)
+        order = sorted(range(len(idxs)), key=lambda j: idxs[j])
+        idxs = [idxs[j] for j in order]
+        ws = [ws[j] for j in order]
     cash = rng.choice([None, None, 0.125, 0.25, 0.5])
     notional = None
     if node["fi"]:
